@@ -129,7 +129,9 @@ def make_run(case):
     edits = G.rand_schedule(rnd, T, len(groups) if groups else 1, cfg)
     closure_steps = sorted(t for t in range(T) if rnd.random() < 0.5) if rnd.random() < 0.2 else []
     resume_steps = sorted(rnd.sample(range(T), rnd.randint(1, 2))) if rnd.random() < 0.2 else []
-    return {"cfg": cfg, "shapes": shapes, "groups": groups, "T": T, "presence_kind": pk, "presence": presence, "edits": edits, "closure_steps": closure_steps, "resume_steps": resume_steps, "grad_scale": gs, "grad_kind": rnd.choice(["dense", "dense", "lowrank", "sparse"])}
+    # a parameter that never receives a gradient may just as well be frozen (requires_grad=False) inside its group
+    frozen = [j for j in range(n) if not any(presence[t_][j] for t_ in range(T))] if rnd.random() < 0.5 else []
+    return {"frozen": frozen, "cfg": cfg, "shapes": shapes, "groups": groups, "T": T, "presence_kind": pk, "presence": presence, "edits": edits, "closure_steps": closure_steps, "resume_steps": resume_steps, "grad_scale": gs, "grad_kind": rnd.choice(["dense", "dense", "lowrank", "sparse"])}
 
 
 def diverged(params, run):
@@ -185,6 +187,8 @@ def execute(run, case_seed, counters, monitor_kwargs=None, on_step=None):
     dt = getattr(torch, cfg["param_dtype"])
     # parameters live on the gradient scale, so that coupled weight decay does not change the conditioning class
     params = G.make_params(torch, run["shapes"], dt, tgen(*case_seed, "init"), scale=run["grad_scale"])
+    for j in run.get("frozen", ()):
+        params[j].requires_grad_(False)
     opt = G.build_optimizer(ds, torch, cfg, params, run["groups"])
     mon = Monitor(ds, torch, opt, cfg, run["groups"], counters=counters, **(monitor_kwargs or {}))
     gg = tgen(*case_seed, "grads")
